@@ -289,7 +289,7 @@ func (s *Script) IsP2PK() bool {
 		return false
 	}
 
-	if len(parts) == 2 && len(parts[0]) > 0 && parts[1][0] == OpCHECKSIG {
+	if len(parts) == 2 && len(parts[0]) > 0 && len(parts[1]) > 0 && parts[1][0] == OpCHECKSIG {
 		pubkey := parts[0]
 		version := pubkey[0]
 
@@ -346,6 +346,16 @@ func isP2PKHInscriptionHelper(parts [][]byte) bool {
 	if len(parts) < 13 {
 		return false
 	}
+	// Zero length pushes decode to empty parts: every part that is looked
+	// into must be long enough.
+	for _, i := range []int{0, 1, 3, 4, 5, 6, 8, 10, 12} {
+		if len(parts[i]) < 1 {
+			return false
+		}
+	}
+	if len(parts[7]) < 3 || (len(parts) > 13 && len(parts[13]) < 1) {
+		return false
+	}
 	valid := parts[0][0] == OpDUP &&
 		parts[1][0] == OpHASH160 &&
 		parts[3][0] == OpEQUALVERIFY &&
@@ -373,7 +383,7 @@ func (s *Script) ParseInscription() (*InscriptionArgs, error) {
 		return nil, err
 	}
 
-	if !isP2PKHInscriptionHelper(p) {
+	if !isP2PKHInscriptionHelper(p) || len(*s) < 25 {
 		return nil, ErrP2PKHInscriptionNotFound
 	}
 
@@ -409,7 +419,7 @@ func (s *Script) IsMultiSigOut() bool {
 		return false
 	}
 
-	if !isSmallIntOp(parts[0][0]) {
+	if len(parts[0]) < 1 || !isSmallIntOp(parts[0][0]) {
 		return false
 	}
 
